@@ -12,9 +12,10 @@ point at `p`").  This file states that the closed forms are **exactly** that sem
 With these, the trusted base of C10/C11 no longer contains `Stmt.compl`, `loopCompl`, `goesRound`, `finallyCompl`,
 `Stmt.reach` …: only the rules of `Exec`/`Reaches` (plus the analyzer model and the rule layers).
 
-* `compl_iff_exec` — unconditional, for the whole statement language;
-* `reach_iff_reaches`, `reachable_iff_reaches` — sound unconditionally, complete on the fragment `inF` (outside it the only
-  gap is `Kids.flowReach`, which takes statements nested directly in expressions to be entered; see the example at the end).
+* `compl_iff_exec`, `reach_iff_reaches` — unconditional, for the whole statement language, statements nested directly in
+  expressions (`with` bodies, class static blocks) included;
+* `reachable_iff_reaches` — sound unconditionally; complete on the fragment (needed only for the entries of functions:
+  `Program.Reaches` enters a function at its body, the closed form also looks at statements nested in its parameters).
 -/
 namespace DL.Props.C10Ref
 open DL.CF
@@ -38,9 +39,9 @@ theorem compl_fields (s : Stmt) (ls : List Id) :
    fun l => by rw [← compl_iff_exec s ls (.cont (some l))]; exact List.contains_iff_mem.symm,
    compl_iff_exec s ls .ret, compl_iff_exec s ls .thr⟩
 
-/-- **the closed-form reachability is exactly `Reaches`** (→ needs the fragment, ← does not) -/
-theorem reach_iff_reaches (s : Stmt) (hf : s.inF = true) (p : Nat) : s.reach p = true ↔ Reaches s p :=
-  ⟨Stmt.reach_complete s p hf, Reaches.sound⟩
+/-- **the closed-form reachability is exactly `Reaches`** (unconditional) -/
+theorem reach_iff_reaches (s : Stmt) (p : Nat) : s.reach p = true ↔ Reaches s p :=
+  ⟨Stmt.reach_complete s p, Reaches.sound⟩
 
 theorem reachable_iff_reaches (prog : Program) (hf : itemsInF prog.items = true) (p : Nat) :
     prog.reachable p = true ↔ prog.Reaches p :=
@@ -95,20 +96,27 @@ theorem C11_case_exec (prog : Program) (hf : itemsInF prog.items = true) (hnd : 
 
 /-! ## the closed forms are not needlessly coarse
 
-On the fragment both directions hold, so there is no gap at all: `finallyCompl`, `loopCompl`/`goesRound`, the label
-filtering and `Cases.reach` are exact for this semantics (a discriminant or a test *may* throw, it need not).  For the
-completions this even holds for the whole language (`compl_iff_exec`).  The only over-approximation is outside the
-fragment: `Kids.flowReach` takes a statement nested directly in an expression (`with` body, class static block) to be
-entered, while `Exec`/`Reaches` — like `evalCompl` — do not look into expressions.  It is on the safe side for C10
-(`reach` too large); it is the reason such kids are outside the fragment. -/
+Both directions hold for the whole statement language, so there is no gap: `Kids.compl`/`Kids.flowReach` (statements
+nested directly in expressions), `finallyCompl`, `loopCompl`/`goesRound`, the label filtering and `Cases.reach` are exact for
+this semantics.  Three coarse spots are built into *both* sides (closed forms and `Exec`/`Reaches` agree on them):
+case tests and catch parameters are only looked at through `Kids.mayThrow` (statements nested in them are not followed);
+for reaching the test of a `do-while` / the update of a `for`, any `continue` of the body — whatever its label — is taken
+to go round (`goesRoundAny`; reachability carries no label context); every case test is taken to be evaluated.  All three
+over-approximate `reach`, which is the safe side for C10, and concern only kids that are outside the fragment. -/
 
-/-- the gap, smallest instance: in `with (o) foo();` the closed form reaches `foo()` (9), `Reaches` has no rule for it -/
+/-- `with (o) foo();`: the nested statement (9) is reached, by the closed form and by a derivation -/
 example :
     let s : Stmt := .simple 0 .other (.cons (.expr (.ident "o") .nil) (.cons (.stmt (.simple 9 .exprStmt .nil)) .nil))
-    s.reach 9 = true ∧ ¬ Reaches s 9 ∧ s.inF = false := by
-  refine ⟨by decide, ?_, by decide⟩
-  intro h
-  cases h
+    s.reach 9 = true ∧ Reaches s 9 ∧ s.inF = true :=
+  ⟨by decide, .simple_kids (.tail (.expr .nil) (.head (.stmt (.self _)))), by decide⟩
+
+/-- `with (o) return;`: the statement returns, and cannot complete normally -/
+example :
+    let s : Stmt := .simple 0 .other (.cons (.expr (.ident "o") .nil) (.cons (.stmt (.ret 9 .nil)) .nil))
+    Exec [] s .ret ∧ ¬ Exec [] s .normal := by
+  refine ⟨.simple (.next (.expr .nil) (.stop (.stmt (.ret .nil)) (by simp))), fun h => ?_⟩
+  have := (compl_iff_exec _ [] .normal).mpr h
+  revert this; decide
 
 /-! ## non-vacuity: derivations -/
 
@@ -117,13 +125,14 @@ example :
     let body := Stmt.block 3 (.cons (.ifS 5 (.cons (.expr (.ident "x") .nil) .nil) (.cont 12 none) none)
       (.cons (.ret 22 (.cons (.expr .other .nil) .nil)) .nil))
     Exec [] (.doWhileS 0 body (.cons (.expr (.ident "c") .nil) .nil) false) .normal :=
-  .do_done (o := .cont none) (.block (.stop (.if_then .cont) (by simp))) rfl
+  .do_done (o := .cont none) (.block (.stop (.if_then (.next (.expr .nil) .nil) .cont) (by simp))) rfl
+    (.eval (.next (.expr .nil) .nil))
 
 /-- `L: while (true) { break L; }` completes normally, and only so -/
 example :
     let s : Stmt := .labeled 0 "L" (.whileS 3 (.cons (.expr .other .nil) .nil) true (.block 16 (.cons (.brk 18 (some "L")) .nil)))
     Exec [] s .normal ∧ ∀ o, Exec [] s o → o = .normal := by
-  refine ⟨.labeled_break (.while_exit (.block (.stop .brk (by simp))) rfl), ?_⟩
+  refine ⟨.labeled_break (.while_exit .known (.block (.stop .brk (by simp))) rfl), ?_⟩
   intro o h
   have := (compl_iff_exec _ [] o).mpr h
   have hc : Stmt.compl [] (.labeled 0 "L" (.whileS 3 (.cons (.expr .other .nil) .nil) true
